@@ -49,6 +49,10 @@ type ProcessSet struct {
 	mch      chan imessage
 	done     chan struct{}
 	doneOnce sync.Once
+
+	// started is closed once StartAll has started every executable process
+	started     chan struct{}
+	startedOnce sync.Once
 }
 
 func NewProcessSet(executeProcesses, waitingProcesses []*schema.Process, definitions *schema.Definitions, opts ...Option) (*ProcessSet, error) {
@@ -90,6 +94,7 @@ func NewProcessSet(executeProcesses, waitingProcesses []*schema.Process, definit
 		catchCh:       make(map[string]chan struct{}),
 		mch:           make(chan imessage, len(executes)+1),
 		done:          make(chan struct{}, 1),
+		started:       make(chan struct{}),
 	}
 
 	return ps, nil
@@ -119,6 +124,7 @@ func (ps *ProcessSet) StartAll(ctx context.Context) error {
 		}
 	}
 
+	ps.startedOnce.Do(func() { close(ps.started) })
 	return nil
 }
 
@@ -126,6 +132,14 @@ func (ps *ProcessSet) StartAll(ctx context.Context) error {
 // Returns true if the instance was complete, false if the context signaled `Done`
 func (ps *ProcessSet) WaitUntilComplete(ctx context.Context) (complete bool) {
 	go func() {
+		// Nothing has completed before the processes were started: a wait
+		// issued before (or during) StartAll must not see the still empty
+		// wait group and report completion.
+		select {
+		case <-ps.started:
+		case <-ctx.Done():
+			return
+		}
 		ps.wg.Wait()
 		verifhook.Point("pset.waited")
 		// every call spawns one of these: only the first may close the channel
@@ -146,36 +160,7 @@ func (ps *ProcessSet) run(ctx context.Context) {
 		case ch := <-ps.mch:
 			switch msg := ch.(type) {
 			case throwMessage:
-				sourceRef, ok := ps.messageFlows[msg.Id]
-				if ok {
-					startFlowNode, waitingProcess, found := ps.resolveWaitingProcessAndEvent(string(sourceRef.TargetRefField))
-					if found {
-						// flow nodes
-						subTracer := tracing.NewTracer(ctx)
-						tracing.NewRelay(ctx, subTracer, ps.tracer, func(trace tracing.ITrace) []tracing.ITrace {
-							return []tracing.ITrace{trace}
-						})
-
-						process, err := NewProcess(waitingProcess, ps.definitions, append(ps.sourceOptions, WithTracer(subTracer))...)
-						if err != nil {
-							ps.tracer.Send(ErrorTrace{Error: err})
-							continue
-						}
-
-						traces := process.Tracer().Subscribe()
-						ps.wg.Add(1)
-						go ps.tracerProcess(ctx, process, traces, &ps.wg)
-						err = process.StartWith(ctx, startFlowNode)
-						if err != nil {
-							ps.tracer.Send(ErrorTrace{Error: err})
-							continue
-						}
-					}
-					cancel, found := ps.triggerCatch(string(sourceRef.TargetRefField))
-					if found {
-						cancel()
-					}
-				}
+				ps.handleThrow(ctx, msg)
 			}
 		case <-ps.done:
 			ps.tracer.Send(CeaseProcessSetTrace{Definitions: ps.definitions})
@@ -183,6 +168,48 @@ func (ps *ProcessSet) run(ctx context.Context) {
 		case <-ctx.Done():
 			return
 		}
+	}
+}
+
+// handleThrow follows the message flow (if any) that leaves a throw event. The
+// process that threw has counted the throw into the set's wait group, so the
+// set cannot be found complete (by a process finishing right after its throw)
+// before the process the throw instantiates has been counted as well.
+func (ps *ProcessSet) handleThrow(ctx context.Context, msg throwMessage) {
+	defer ps.wg.Done()
+
+	sourceRef, ok := ps.messageFlows[msg.Id]
+	if !ok {
+		return
+	}
+
+	startFlowNode, waitingProcess, found := ps.resolveWaitingProcessAndEvent(string(sourceRef.TargetRefField))
+	if found {
+		// flow nodes
+		subTracer := tracing.NewTracer(ctx)
+		tracing.NewRelay(ctx, subTracer, ps.tracer, func(trace tracing.ITrace) []tracing.ITrace {
+			return []tracing.ITrace{trace}
+		})
+
+		process, err := NewProcess(waitingProcess, ps.definitions, append(ps.sourceOptions, WithTracer(subTracer))...)
+		if err != nil {
+			ps.tracer.Send(ErrorTrace{Error: err})
+			return
+		}
+
+		traces := process.Tracer().Subscribe()
+		ps.wg.Add(1)
+		go ps.tracerProcess(ctx, process, traces, &ps.wg)
+		err = process.StartWith(ctx, startFlowNode)
+		if err != nil {
+			ps.tracer.Send(ErrorTrace{Error: err})
+			return
+		}
+	}
+
+	cancel, found := ps.triggerCatch(string(sourceRef.TargetRefField))
+	if found {
+		cancel()
 	}
 }
 
@@ -208,6 +235,8 @@ LOOP:
 			case *schema.ThrowEvent:
 				eventId, ok := evt.Id()
 				if ok {
+					// counted until handleThrow is through with it
+					ps.wg.Add(1)
 					ps.mch <- throwMessage{Id: *eventId}
 				}
 			}
